@@ -20,6 +20,9 @@ def replay(spec):
     problems = []
     tp = np.arange(0, 3, 0.25)
     kind = spec.get("kind")
+    if spec.get("facet") == "reuse":
+        from .ssa import replay_reuse
+        return replay_reuse(spec)
     if kind == "rng_history":
         import bioscrape.random as R
         seed = int(spec.get("seed", 12345))
@@ -77,22 +80,36 @@ def replay(spec):
     if kind == "reinit" and spec.get("which") == "lineage":
         from bioscrape.lineage import LineageModel, LineageVolumeSplitter, py_SimulateSingleCell
 
-        def mk():
+        def mk(staged=False):
             M = LineageModel(species=["A", "X"], reactions=[([], ["A"], "massaction", {"k": 3.0}), (["A"], [], "massaction", {"k": 1.0})],
                              rules=[("ode", {"equation": "1", "target": "X"})], initial_condition_dict={"A": 5, "X": 0}, initialize_model=False)
             M.create_volume_rule("ode", {"equation": "volume*0.5"})
+            M.create_volume_event("linear volume", {"growth_rate": 0.5}, "massaction", {"k": 2.0, "species": ""})
+            if staged:
+                M.py_initialize()
+            M.create_death_event("death", {}, "massaction", {"k": 0.3, "species": ""})
             return M
         outs = []
-        for n_init in (1, 3):
-            M = mk()
-            for _ in range(n_init):
+        if spec.get("how") == "staged":
+            variants = [dict(staged=False, n=1), dict(staged=True, n=1)]
+        else:
+            variants = [dict(staged=False, n=1), dict(staged=False, n=3)]
+        for v_ in variants:
+            M = mk(v_["staged"])
+            for _ in range(v_["n"]):
                 M.py_initialize()
-            py_seed_random(7)
-            df = py_SimulateSingleCell(tp, Model=M)
-            outs.append(df[["A", "X", "volume"]].to_numpy())
-        if outs[0].shape != outs[1].shape or not np.allclose(outs[0], outs[1]):
-            problems.append("lineage model initialised three times simulates differently from one initialised once: volume %s vs %s"
-                            % (outs[1][:4, 2].tolist(), outs[0][:4, 2].tolist()))
+            rows = []
+            for seed in (7, 8, 9):
+                py_seed_random(seed)
+                df = py_SimulateSingleCell(tp, Model=M)
+                rows.append(df[["A", "X", "volume"]].to_numpy())
+            outs.append(rows)
+        for a, b in zip(outs[0], outs[1]):
+            if a.shape != b.shape or not np.allclose(a, b):
+                problems.append("lineage model reached through %s simulates differently from the model built and initialised once: "
+                                "last rows %s vs %s" % ("two stages around an initialisation" if spec.get("how") == "staged" else "three initialisations",
+                                                        b[-1].tolist(), a[-1].tolist()))
+                break
         return {"reproduced": bool(problems), "observed": problems, "expected": "same output"}
 
     def sim(M, stochastic, **kw):
